@@ -83,16 +83,6 @@ def run_unify(case):
                 elif got[1] != expected[1]:
                     failures.append(fail(sub, "sharing_partition_differs"))
                 results[order] = got
-    # text form agrees with the API form
-    for name in ("a", "b"):
-        txt = ref_fs.fs_to_text(case[name])
-        if txt is not None:
-            with guard(failures, "from_text"):
-                T = FeatureStructure.from_text(txt)
-                G2 = ref_fs.Graph()
-                r2 = G2.load(case[name])
-                if ref_fs.observe_lib_fs(T)[0] != G2.observe(r2)[0]:
-                    failures.append(fail("from_text", "differs_from_api_built", txt))
     shared = set(pa0) & set(pb0) - {()}
     labels = ["unify", "compatible" if ok else "clash"]
     if any(len(g) > 1 for g in (expected[1] if expected else [])):
